@@ -208,6 +208,9 @@ func (ex *Exec) frameCheck(st *State, ct *Contract, e *env) {
 		if now == "" || now == was {
 			continue
 		}
+		if r == "G!tokens" {
+			continue // bookkeeping of tracked channels (always local to the function that made them, see tokenTracked)
+		}
 		if ex.mode.concurrency && ex.isGuardedMapRegion(r) {
 			continue // changed by the environment havoc at lock acquisition, not by this function
 		}
@@ -227,7 +230,7 @@ func (ex *Exec) frameCheck(st *State, ct *Contract, e *env) {
 		}
 		sort := ex.regSorts[r]
 		var goal string
-		if strings.HasPrefix(sort, "(Array Int ") && !strings.HasPrefix(r, "G!") {
+		if strings.HasPrefix(sort, "(Array Int ") && (!strings.HasPrefix(r, "G!") || len(refs) > 0) {
 			var ne []string
 			for _, ref := range refs {
 				ne = append(ne, not(eq("r!f", ref)))
